@@ -32,6 +32,18 @@ def programs(chk, n_generated=None):
     return acc + _cache["rej"][:40] + gen
 
 
+def tree_wire(t):
+    """wire form of a block tree for the Lean model of the tail transformations (Model/Tail.lean)"""
+    def block(b):
+        stmts, tail = b
+        return "B(" + ";".join(["E"] * len(stmts) + ["E" if tail[0] == "expr" else tree_wire(tail)]) + ")"
+    if t[0] == "ifb":
+        return "I(%s;%s)" % (block(t[2]), block(t[3]))
+    if t[0] == "matchb":
+        return "M(" + ";".join("C(%s)" % block(b) for _, b in t[2]) + ";C(%s))" % block(t[3])
+    raise ValueError(t[0])
+
+
 def uses_var(x, name):
     if isinstance(x, tuple):
         if x[0] == "var" and x[2] == name:
@@ -311,7 +323,7 @@ class Gen:
             self.no_tern += 1
             tree = self.block_tree(ty, env, 2, top=True)
             self.no_tern -= 1
-            return ("blockdef", name, ty, tree), env + [(name, ty, True)]
+            return ("blockdef", name, ty, tree), env + [(name, ty, False)]
         objs = [v for v in env if v[1] in self.classes and not self.classes[v[1]]["exc"]]
         cs = [c for c, d in self.classes.items() if not d["exc"]]
         if objs and cs:
@@ -368,7 +380,12 @@ class Gen:
         if body and r.random() < 0.3:
             body.insert(r.randrange(len(body) + 1) if not raises else 0, ("retif", self.expr(BOOL, env, 1), self.expr(ret, env, 1)))
         last = self.expr(ret, env2)
-        self.funcs[name] = dict(params=params, ret=ret, body=body, last=last, raises=raises)
+        lasttree = None
+        if ret in (INT, STR) and r.random() < 0.25:
+            self.no_tern += 1
+            lasttree = self.block_tree(ret, env2, 2, top=r.random() < 0.7)
+            self.no_tern -= 1
+        self.funcs[name] = dict(params=params, ret=ret, body=body, last=last, lasttree=lasttree, raises=raises)
         return name
 
     def klass(self):
@@ -498,7 +515,12 @@ class Printer:
         head = "%sdef %s(%s) -> %s" % (pad, name, ", ".join(ps), d["ret"])
         if d.get("raises"):
             head += " raise [%s]" % ", ".join(d["raises"])
-        if not d["body"]:
+        if d.get("lasttree") is not None:
+            self.lines.append(head + " =>")
+            for s in d["body"]:
+                self.stmt(s, ind + 1)
+            self.tree(d["lasttree"], ind + 1, pad + "    ")
+        elif not d["body"]:
             self.lines.append(head + " => " + self.e(d["last"]))
         else:
             self.lines.append(head + " =>")
@@ -835,6 +857,8 @@ class Interp:
         try:
             for s in d["body"]:
                 self.stmt(s, env)
+            if d.get("lasttree") is not None:
+                return self.tree(d["lasttree"], env)
         except Returned as ret:
             return ret.value
         return self.e(d["last"], env)
